@@ -4,6 +4,7 @@ import random
 
 import tlc
 import common
+import pipeline
 import kv
 
 ASSUME12 = [
@@ -155,6 +156,7 @@ def run(pid, tier, seed):
     for t in traces:
         t["steps"] = [1]
     res, runs = tlc.validate_parallel("KvLineTrace", "KvLineTrace.cfg", traces, nproc=14, chunk=1500, timeout=3000)
+    pipeline.selftest_from(rep, "KvLineTrace", "KvLineTrace.cfg", traces, res, keys=("res", "wrote", "err"))
     for r in runs:
         rep.cov["states"] += r.distinct
         rep.cov["transitions"] += r.generated
